@@ -45,6 +45,7 @@ class Sched:
         self.steps = 0
         self.deadlock = None
         self.step_limit = False
+        self.cand_trace = []          # (chosen thread, enabled threads) per step, filled by the systematic choosers
 
     # ---- called from logical threads
     def me(self):
@@ -382,6 +383,27 @@ class FakePopen:
 # ------------------------------------------------------------------------------------------------ choosers
 def make_chooser(policy, rng):
     """policy: 'random' | 'first:<prefix>' (prefer threads whose name starts with prefix) | 'last:<prefix>' (avoid them)"""
+    if policy == "np" or policy.startswith("pb:"):
+        # non-preemptive baseline: keep running the thread that ran last while it is enabled, else the first by name;
+        # "pb:<step>=<thread>,..." deviates from that at the given steps (one deviation = one preemption)
+        forced = {}
+        if policy.startswith("pb:"):
+            for part in policy[3:].split(","):
+                st, name = part.split("=")
+                forced[int(st)] = name
+        last = [None]
+
+        def choose_np(cands, sched):
+            pick = None
+            if sched.steps in forced:
+                pick = next((t for t in cands if t.name == forced[sched.steps]), None)
+            if pick is None:
+                pick = next((t for t in cands if t.name == last[0]), None) or sorted(cands, key=lambda t: t.name)[0]
+            last[0] = pick.name
+            sched.cand_trace.append((pick.name, sorted(t.name for t in cands)))
+            return pick
+        return choose_np
+
     def choose(cands, sched):
         if policy.startswith("first:"):
             pref = [t for t in cands if t.name.startswith(policy[6:])]
@@ -393,3 +415,25 @@ def make_chooser(policy, rng):
                 return rng.choice(rest)
         return rng.choice(cands)
     return choose
+
+
+def pb_run(case, runner):
+    """case["pb1"] = k: run the k-th schedule with exactly one preemption relative to the non-preemptive baseline of this
+    configuration (canonical enumeration: by step, then by thread name); k beyond the number of such schedules = the baseline.
+    `runner(case)` must put the scheduler's cand_trace into its result under "cand_trace"."""
+    if "pb1" not in case:
+        o = runner(case)
+        if isinstance(o, dict):
+            o.pop("cand_trace", None)
+        return o
+    o = runner(dict(case, policy="np"))
+    alts = [(i, n) for i, (ch, cs) in enumerate(o.get("cand_trace", [])) for n in cs if n != ch]
+    k = case["pb1"]
+    if k < len(alts):
+        st, name = alts[k]
+        o = runner(dict(case, policy="pb:%d=%s" % (st, name)))
+        o["pb"] = [st, name, len(alts)]
+    else:
+        o["pb"] = ["baseline", len(alts)]
+    o.pop("cand_trace", None)
+    return o
